@@ -12,10 +12,10 @@
 (* A difference is "model drift": it is reported as rule M-* and counted by   *)
 (* the driver as the model-conformance figure - it is NOT a property verdict  *)
 (* (DESIGN.md 2.1).                                                           *)
-EXTENDS MCStore, TraceLib
+EXTENDS MCStoreCrash, TraceLib
 
 VARIABLE l
-tvars == <<vars, l>>
+tvars == <<cvars, l>>
 
 KeyOfNo(n) == IF n = 1 THEN K1 ELSE IF n = 2 THEN K2 ELSE K3
 
@@ -65,7 +65,7 @@ Drift(e) ==
   \cup (IF pfirst' # e.st.ph.first THEN {"M-primary-first-file"} ELSE {})
   \cup (IF ifirst' # e.st.ih.first THEN {"M-index-first-file"} ELSE {})
 
-TInit == Init /\ l = 1 /\ RegInit
+TInit == CInit /\ l = 1 /\ RegInit
 
 TNext ==
   /\ l <= Len(Trace)
@@ -76,10 +76,11 @@ TNext ==
               /\ ifiles' = << <<>> >> /\ ifirst' = 0 /\ ilen' = 0
               /\ pnext' = <<>> /\ pfiles' = << <<>> >> /\ pfirst' = 0 /\ plen' = 0 /\ recFile' = 0 /\ recPos' = 0
               /\ flpool' = <<>> /\ flfile' = <<>> /\ flgc' = [has |-> FALSE, l |-> <<>>] /\ visited' = {} /\ hist' = <<>>
-         [] e.e = "put" -> Put(KeyOfNo(e.k), e.vlen)
-         [] e.e = "rem" -> Remove(KeyOfNo(e.k))
+              /\ dur' = [k \in Keys |-> -1] /\ since' = [k \in Keys |-> {}] /\ ok' = AllOK
+         [] e.e = "put" -> CPut(KeyOfNo(e.k), e.vlen)
+         [] e.e = "rem" -> CRemove(KeyOfNo(e.k))
          [] e.e = "flush" ->
-              /\ hist' = hist
+              /\ hist' = hist /\ dur' = kv /\ since' = [k \in Keys |-> {}] /\ ok' = AllOK
               /\ IF pnext = <<>> /\ Dirty = {}
                  THEN UNCHANGED <<kv, bk, inext, ifiles, ifirst, ilen, pnext, pfiles, pfirst, plen, recFile, recPos, flpool, flfile, flgc, visited>>
                  ELSE LET rn    == RealNew(e.st)
@@ -87,9 +88,17 @@ TNext ==
                           order == IF new \in Perms(Dirty) THEN new ELSE CHOOSE o \in Perms(Dirty) : TRUE
                       IN FlushWith(order)
               /\ Flag(e, Drift(e))
-         [] e.e = "prigc" -> PriGC(e.lowUse) /\ Flag(e, Drift(e))
-         [] e.e = "idxgc" -> IdxGC(e.scanFree) /\ Flag(e, Drift(e))
-         [] OTHER -> UNCHANGED vars
+         [] e.e = "prigc" -> CPriGC(e.lowUse) /\ Flag(e, Drift(e))
+         [] e.e = "idxgc" -> CIdxGC(e.scanFree) /\ Flag(e, Drift(e))
+         \* Close + reopen (same bit size): the commit's flush order is bound from the projection, the recovery path from the
+         \* event; the model's files, table (snapshot or rescan) and freelist are compared with the reopened store's
+         [] e.e = "reopen" /\ e.oerr = "" /\ "st" \in DOMAIN e ->
+              LET rn    == RealNew(e.st)
+                  new   == [i \in 1..Len(rn) |-> rn[i].b]
+                  order == IF new \in Perms(Dirty) THEN new ELSE CHOOSE o \in Perms(Dirty) : TRUE
+              IN /\ ReopenWith(IF e.snap = "keep" THEN "snapshot" ELSE "rescan", order)
+                 /\ Flag(e, Drift(e) \cup (IF ok'.paths THEN {} ELSE {"M-recovery-paths-differ-in-the-model"}))
+         [] OTHER -> UNCHANGED cvars
   /\ Consumed(l)
   /\ l' = l + 1
 
